@@ -18,7 +18,7 @@ worker_init = symfam.worker_init
 
 
 def floors(tier):
-    return {NAME: 400 if tier == "quick" else 5000}
+    return {NAME: 400 if tier == "quick" else 12000}
 
 
 def gen_cases(tier, seed):
@@ -28,7 +28,7 @@ def gen_cases(tier, seed):
 def _gen_cases(tier, seed):
     if tier == "quick":
         return symfam.gen_cases(tier, seed, 12, per_group=1, n_pres=2, extra_random=60)
-    return symfam.gen_cases(tier, seed, 12, per_group=8, n_pres=3, extra_random=400)
+    return symfam.gen_cases(tier, seed, 12, per_group=20, n_pres=3, extra_random=1000)
 
 
 def run_case(case):
